@@ -41,11 +41,10 @@ CONSTANTS Family,     \* set of records [m, n, e]: all m x n matrices with entri
 VARIABLES fam, ents, phase, res
 vars == <<fam, ents, phase, res>>
 
-\* named families (cfg files cannot contain records with negative numbers / nested values comfortably)
+\* named families, selected in the cfg files by  CONSTANT Family <- FamQuick  (2 233 matrices) or FamThorough (36 869)
 FamTiny     == {[m |-> 2, n |-> 2, e |-> 1]}
 FamQuick    == {[m |-> 1, n |-> 2, e |-> 2], [m |-> 2, n |-> 2, e |-> 2], [m |-> 2, n |-> 3, e |-> 1],
                 [m |-> 3, n |-> 2, e |-> 1], [m |-> 3, n |-> 1, e |-> 2]}
-FamQuick33  == {[m |-> 3, n |-> 3, e |-> 1]}
 \* every matrix with entries in {-1,0,1} up to 3 x 3 (C04's exhaustive family) + 2 x n, m x 1 over -2..2
 FamThorough == {[m |-> 1, n |-> 1, e |-> 2], [m |-> 1, n |-> 2, e |-> 2], [m |-> 1, n |-> 3, e |-> 1],
                 [m |-> 2, n |-> 1, e |-> 2], [m |-> 2, n |-> 2, e |-> 2], [m |-> 2, n |-> 3, e |-> 2],
